@@ -267,6 +267,13 @@ def step (s : St) (toks : List String) : St × String :=
       match servePOST s n with
       | (s', .ok ()) => (s', s!"ok {b01 s'.req.isSome} {b01 s'.res.isSome}")
       | (s', .error e) => (s', s!"rej {showPErr e}")
+  | "set" :: k :: tree =>
+    match parseKind k, parseTree tree with
+    | some k, some n =>
+      match compile n with
+      | .ok r => (setSide s k (r.side k), s!"set {b01 (r.side k).isSome}")
+      | .error e => (s, s!"set rej {showPErr e}")
+    | _, _ => (s, "bad-op")
   | "postj" :: _style :: jtoks =>
     match parseJV (2 * jtoks.length + 2) jtoks with
     | some (j, []) =>
